@@ -9,6 +9,7 @@ Part (b): every output of a transformation / parser on pools of well-typed formu
 re-derived bottom-up and must carry the sort of its input.
 """
 from itertools import product
+from fractions import Fraction
 import pysmt.operators as op
 from pysmt.environment import Environment, push_env, pop_env
 from ..core import profiles as P
@@ -462,6 +463,13 @@ def _tr_parts(quick):
         ("lia", lambda e: P.lia_profile(e, consts=(0, 1, -1), big=False), 1, None),
         ("lia2", lambda e: P.lia_profile(e, consts=(0, 2), big=False, nsyms=1, pow_=False), 2,
          2000 if quick else None),
+        # powers and divisions of ground non-constant terms (folded only during simplification)
+        ("lia-pow", lambda e: P.lia_profile(e, consts=(1, 2), big=False, nsyms=1), 2, None,
+         {1: ("plus", "minus", "times", "ite", "pow0", "pow2", "div"),
+          2: ("pow0", "pow1", "pow2", "pow-1", "div", "plus", "eq", "le", "ite")}),
+        ("lra-pow", lambda e: P.lra_profile(e, consts=(1, Fraction(1, 2)), nsyms=1), 2, None,
+         {1: ("plus", "minus", "times", "pow2", "div"),
+          2: ("pow0", "pow2", "pow-1", "div", "plus", "eq", "le")}),
         ("lra", lambda e: P.lra_profile(e, consts=(0, 1)), 1, None),
         ("lira", P.lira_profile, 1, None),
         ("bv", lambda e: P.bv_profile(e, (1, 2), nsyms=1), 1, None),
@@ -482,7 +490,10 @@ def run_transform_shard(args):
         prof = [p for p in _tr_parts(quick) if p[0] == pname][0]
         profile = prof[1](env)
         depth = prof[2]
-        terms = termgen.flatten(termgen.levels(profile, depth))
+        obl = None
+        if len(prof) > 4:
+            obl = {d: [o for o in profile.ops if o.name in names] for d, names in prof[4].items()}
+        terms = termgen.flatten(termgen.levels(profile, depth, obl))
         if prof[3] is not None and len(terms) > prof[3]:
             # deterministic thinning of the deepest level: every k-th term (all lower levels kept)
             keep = termgen.flatten(termgen.levels(profile, depth - 1))
